@@ -237,6 +237,13 @@ def run(chk):
             if not r["maxrel"] <= bound:
                 chk.violation(f"c10:tolerance:{r['name']}", f"changing table tolerances to {t} changes the tensor by rel {r['maxrel']} > {bound}", {**r, "tolerances": t})
     shared_cache(chk)
+    # closed forms of what diagonal and sum-factorised groups add to A (genBlock_diagonal_spec, diagonal_of_full,
+    # genBlock_tensor_spec, tensor_equals_full): transcription vs the real generator, side conditions per real group,
+    # TPTables (full table = product of the 1D factor tables) checked numerically on every real sum-factorised group
+    from .. import codegen_checks
+    chk.lean(codegen_checks.C10_MODULE, codegen_checks.C10_THEOREMS, extra_files=codegen_checks.C10_FILES)
+    with lean.Driver("driver_codegen") as d:
+        codegen_checks.check_blocks(chk, d, codegen_checks.extra_entries())
 
     # options that do not apply have no effect on the generated text
     def code(objs, **kw):
